@@ -219,83 +219,112 @@ fn crash_info(s: &McState) -> (String, String) {
 
 /// C19: the battery of library predicates (same list as coq/theories/Model/PredInst.v), evaluated with the real
 /// anysystem::mc::predicates; '1' = Err / Some / true, '0' = Ok / None / false, 'x' = the predicate panicked
-pub fn pred_battery(n0: u64, n1: u64, s: &McState) -> String {
+type BFn = Box<dyn FnMut(&McState) -> char>;
+
+thread_local! {
+    /// the predicate instances of the battery, created ONCE per run (as a user creates them once per StrategyConfig)
+    /// and evaluated on every state in exploration order: a predicate whose answer depends on earlier evaluations
+    /// differs from its (stateless) specification
+    static BATTERY: RefCell<Option<(u64, u64, Vec<BFn>)>> = RefCell::new(None);
+}
+
+pub fn reset_battery() {
+    BATTERY.with(|b| *b.borrow_mut() = None);
+}
+
+fn bchar(r: std::thread::Result<bool>) -> char {
+    match r {
+        Ok(true) => '1',
+        Ok(false) => '0',
+        Err(_) => 'x',
+    }
+}
+
+fn build_battery(n0: u64, n1: u64) -> Vec<BFn> {
     use anysystem::logger::LogEntry;
     use anysystem::mc::predicates::{collects, goals, invariants, prunes};
     use std::collections::HashSet;
+    fn is_recv(e: &LogEntry) -> bool {
+        matches!(e, LogEntry::McMessageReceived { .. })
+    }
+    fn is_fired(e: &LogEntry) -> bool {
+        matches!(e, LogEntry::McTimerFired { .. })
+    }
+    fn recv_by(e: &LogEntry, p: &String) -> bool {
+        matches!(e, LogEntry::McMessageReceived { dst, .. } if dst == p)
+    }
+    // a predicate that matches one entry for SEVERAL processes (sender or receiver)
+    fn involves(e: &LogEntry, p: &String) -> bool {
+        matches!(e, LogEntry::McMessageReceived { src, dst, .. } if dst == p || src == p)
+    }
     let d0 = "plain".to_string();
     let d1 = "{\"k\": \"v\"}".to_string();
-    let is_recv = |e: &LogEntry| matches!(e, LogEntry::McMessageReceived { .. });
-    let is_fired = |e: &LogEntry| matches!(e, LogEntry::McTimerFired { .. });
-    let recv_by = |e: &LogEntry, p: &String| matches!(e, LogEntry::McMessageReceived { dst, .. } if dst == p);
-    // a predicate that matches one entry for SEVERAL processes (sender or receiver)
-    let involves = |e: &LogEntry, p: &String| matches!(e, LogEntry::McMessageReceived { src, dst, .. } if dst == p || src == p);
-    let mut out = String::new();
-    let mut inv = |mut f: anysystem::mc::InvariantFn| {
-        let r = std::panic::catch_unwind(std::panic::AssertUnwindSafe(|| f(s).is_err()));
-        out.push(match r { Ok(true) => '1', Ok(false) => '0', Err(_) => 'x' });
+    let mut v: Vec<BFn> = vec![];
+    let inv = |mut f: anysystem::mc::InvariantFn| -> BFn {
+        Box::new(move |s: &McState| bchar(std::panic::catch_unwind(std::panic::AssertUnwindSafe(|| f(s).is_err()))))
     };
-    for d in [0u64, 1, 2, 3, 5] { inv(invariants::state_depth(d)); }
-    for d in [1u64, 2, 4, 8] { inv(invariants::state_depth_current_run(d)); }
-    let set = |v: Vec<&String>| -> HashSet<String> { v.into_iter().cloned().collect() };
-    inv(invariants::received_messages(nname(n0), pname(0), set(vec![])));
-    inv(invariants::received_messages(nname(n0), pname(0), set(vec![&d0])));
-    inv(invariants::received_messages(nname(n0), pname(0), set(vec![&d0, &d1])));
-    inv(invariants::received_messages(nname(n1), pname(1), set(vec![&d1])));
-    inv(invariants::received_messages(nname(n1), pname(0), set(vec![&d0])));
-    drop(inv);
-    let mut opt = |mut f: Box<dyn FnMut(&McState) -> Option<String>>| {
-        let r = std::panic::catch_unwind(std::panic::AssertUnwindSafe(|| f(s).is_some()));
-        out.push(match r { Ok(true) => '1', Ok(false) => '0', Err(_) => 'x' });
+    let opt = |mut f: Box<dyn FnMut(&McState) -> Option<String>>| -> BFn {
+        Box::new(move |s: &McState| bchar(std::panic::catch_unwind(std::panic::AssertUnwindSafe(|| f(s).is_some()))))
     };
+    let col = |mut f: anysystem::mc::CollectFn| -> BFn {
+        Box::new(move |s: &McState| bchar(std::panic::catch_unwind(std::panic::AssertUnwindSafe(|| f(s)))))
+    };
+    for d in [0u64, 1, 2, 3, 5] { v.push(inv(invariants::state_depth(d))); }
+    for d in [1u64, 2, 4, 8] { v.push(inv(invariants::state_depth_current_run(d))); }
+    let set = |x: Vec<&String>| -> HashSet<String> { x.into_iter().cloned().collect() };
+    v.push(inv(invariants::received_messages(nname(n0), pname(0), set(vec![]))));
+    v.push(inv(invariants::received_messages(nname(n0), pname(0), set(vec![&d0]))));
+    v.push(inv(invariants::received_messages(nname(n0), pname(0), set(vec![&d0, &d1]))));
+    v.push(inv(invariants::received_messages(nname(n1), pname(1), set(vec![&d1]))));
+    v.push(inv(invariants::received_messages(nname(n1), pname(0), set(vec![&d0]))));
     for n in [0usize, 1, 2] {
-        opt(goals::got_n_local_messages(nname(n0), pname(0), n));
-        opt(goals::got_n_local_messages(nname(n1), pname(1), n));
+        v.push(opt(goals::got_n_local_messages(nname(n0), pname(0), n)));
+        v.push(opt(goals::got_n_local_messages(nname(n1), pname(1), n)));
     }
-    opt(goals::no_events());
-    opt(goals::always_ok());
-    for d in [0u64, 2, 4] { opt(goals::depth_reached(d)); }
+    v.push(opt(goals::no_events()));
+    v.push(opt(goals::always_ok()));
+    for d in [0u64, 2, 4] { v.push(opt(goals::depth_reached(d))); }
     for n in [1usize, 2, 3] {
-        opt(goals::event_happened_n_times_current_run(is_recv, n));
-        opt(goals::event_happened_n_times_current_run(is_fired, n));
+        v.push(opt(goals::event_happened_n_times_current_run(is_recv, n)));
+        v.push(opt(goals::event_happened_n_times_current_run(is_fired, n)));
     }
-    for d in [0u64, 2, 4] { opt(prunes::state_depth(d)); }
-    for k in [0u64, 1, 2] { opt(prunes::sent_messages_limit(k)); }
-    for l in [0usize, 1, 3] { opt(prunes::events_limit(is_recv, l)); }
-    for l in [0usize, 1, 2] { opt(prunes::events_limit_per_proc(recv_by, vec![pname(0), pname(1)], l)); }
-    for l in [1usize, 2] { opt(prunes::events_limit_per_proc(involves, vec![pname(0), pname(1)], l)); }
-    for l in [1usize, 2] { opt(prunes::events_limit_per_proc(involves, vec![pname(1), pname(0)], l)); }
-    opt(prunes::events_limit_per_proc(involves, vec![pname(2), pname(1), pname(0)], 1));
-    for n in [1usize, 2] { opt(prunes::event_happened_n_times_current_run(is_recv, n)); }
-    opt(prunes::proc_permutations(&[pname(0), pname(1)]));
-    opt(prunes::proc_permutations(&[pname(1), pname(0)]));
-    opt(prunes::proc_permutations(&[pname(0), pname(1), pname(2)]));
-    opt(prunes::proc_permutations(&[pname(2), pname(0)]));
-    drop(opt);
-    let mut col = |mut f: anysystem::mc::CollectFn| {
-        let r = std::panic::catch_unwind(std::panic::AssertUnwindSafe(|| f(s)));
-        out.push(match r { Ok(true) => '1', Ok(false) => '0', Err(_) => 'x' });
-    };
-    for d in [0u64, 2] { col(collects::state_depth(d)); }
-    col(collects::no_events());
-    col(collects::got_n_local_messages(nname(n0), pname(0), 1));
-    col(collects::events_limit(is_fired, 0));
-    col(collects::event_happened_n_times_current_run(is_fired, 1));
-    drop(col);
-    // combinators and defaults
-    let b = |r: std::thread::Result<bool>| match r { Ok(true) => '1', Ok(false) => '0', Err(_) => 'x' };
-    let mut f1 = invariants::all_invariants(vec![invariants::state_depth(2), invariants::state_depth_current_run(4)]);
-    out.push(b(std::panic::catch_unwind(std::panic::AssertUnwindSafe(|| f1(s).is_err()))));
-    let mut f2 = goals::any_goal(vec![goals::no_events(), goals::depth_reached(3)]);
-    out.push(b(std::panic::catch_unwind(std::panic::AssertUnwindSafe(|| f2(s).is_some()))));
-    let mut f3 = goals::all_goals(vec![goals::no_events(), goals::depth_reached(3)]);
-    out.push(b(std::panic::catch_unwind(std::panic::AssertUnwindSafe(|| f3(s).is_some()))));
-    let mut f4 = prunes::any_prune(vec![prunes::state_depth(4), prunes::sent_messages_limit(1)]);
-    out.push(b(std::panic::catch_unwind(std::panic::AssertUnwindSafe(|| f4(s).is_some()))));
-    let mut f5 = collects::any_collect(vec![collects::state_depth(3), collects::no_events()]);
-    out.push(b(std::panic::catch_unwind(std::panic::AssertUnwindSafe(|| f5(s)))));
-    let mut f6 = collects::all_collects(vec![collects::state_depth(1), collects::no_events()]);
-    out.push(b(std::panic::catch_unwind(std::panic::AssertUnwindSafe(|| f6(s)))));
+    for d in [0u64, 2, 4] { v.push(opt(prunes::state_depth(d))); }
+    for k in [0u64, 1, 2] { v.push(opt(prunes::sent_messages_limit(k))); }
+    for l in [0usize, 1, 3] { v.push(opt(prunes::events_limit(is_recv, l))); }
+    for l in [0usize, 1, 2] { v.push(opt(prunes::events_limit_per_proc(recv_by, vec![pname(0), pname(1)], l))); }
+    for l in [1usize, 2] { v.push(opt(prunes::events_limit_per_proc(involves, vec![pname(0), pname(1)], l))); }
+    for l in [1usize, 2] { v.push(opt(prunes::events_limit_per_proc(involves, vec![pname(1), pname(0)], l))); }
+    v.push(opt(prunes::events_limit_per_proc(involves, vec![pname(2), pname(1), pname(0)], 1)));
+    for n in [1usize, 2] { v.push(opt(prunes::event_happened_n_times_current_run(is_recv, n))); }
+    v.push(opt(prunes::proc_permutations(&[pname(0), pname(1)])));
+    v.push(opt(prunes::proc_permutations(&[pname(1), pname(0)])));
+    v.push(opt(prunes::proc_permutations(&[pname(0), pname(1), pname(2)])));
+    v.push(opt(prunes::proc_permutations(&[pname(2), pname(0)])));
+    for d in [0u64, 2] { v.push(col(collects::state_depth(d))); }
+    v.push(col(collects::no_events()));
+    v.push(col(collects::got_n_local_messages(nname(n0), pname(0), 1)));
+    v.push(col(collects::events_limit(is_fired, 0)));
+    v.push(col(collects::event_happened_n_times_current_run(is_fired, 1)));
+    // combinators
+    v.push(inv(invariants::all_invariants(vec![invariants::state_depth(2), invariants::state_depth_current_run(4)])));
+    v.push(opt(goals::any_goal(vec![goals::no_events(), goals::depth_reached(3)])));
+    v.push(opt(goals::all_goals(vec![goals::no_events(), goals::depth_reached(3)])));
+    v.push(opt(prunes::any_prune(vec![prunes::state_depth(4), prunes::sent_messages_limit(1)])));
+    v.push(col(collects::any_collect(vec![collects::state_depth(3), collects::no_events()])));
+    v.push(col(collects::all_collects(vec![collects::state_depth(1), collects::no_events()])));
+    v
+}
+
+pub fn pred_battery(n0: u64, n1: u64, s: &McState) -> String {
+    let mut out = BATTERY.with(|b| {
+        let mut b = b.borrow_mut();
+        let stale = !matches!(&*b, Some((a0, a1, _)) if *a0 == n0 && *a1 == n1);
+        if stale {
+            *b = Some((n0, n1, build_battery(n0, n1)));
+        }
+        let fs = &mut b.as_mut().unwrap().2;
+        fs.iter_mut().map(|f| f(s)).collect::<String>()
+    });
     // the crate's defaults are private functions; StrategyConfig::default() carries them
     let mut dflt = StrategyConfig::default();
     out.push(if dflt.verif_default_invariant_is_err(s) { '1' } else { '0' });
@@ -576,6 +605,7 @@ pub fn run_lines(lines: &[String], pre: Option<ModelChecker>, pre_nodes: Option<
                 let mc = checker.as_mut().unwrap();
                 let before = mc.verif_system().verif_get_state();
                 writeln!(out, "BEFORE {}", state_line(&ps, &before, verbose)).unwrap();
+                reset_battery();     // the predicates of the battery are created once per run
                 let rec: Recorder = Rc::new(RefCell::new(vec![]));
                 let cfg = mk_config(&ps, &vm, debug, rec.clone(), verbose, fuel);
                 let cbops = cb.clone();
